@@ -1,6 +1,8 @@
 package dedupkey
 
 import (
+	"errors"
+
 	"github.com/ipld/go-ipld-prime/datamodel"
 	"github.com/ipld/go-ipld-prime/node/basicnode"
 )
@@ -17,5 +19,8 @@ func EncodeDedupKey(key string) (datamodel.Node, error) {
 
 // DecodeDedupKey returns a string key decoded from cbor data
 func DecodeDedupKey(data datamodel.Node) (string, error) {
+	if data == nil {
+		return "", errors.New("no dedup key data")
+	}
 	return data.AsString()
 }
